@@ -11,8 +11,8 @@ package federation
 // in which the per-cluster workers run and report (preemption bound 0) and additionally every
 // single preemption at a backend response or lock (bound 1, thorough tier).
 //
-// A scenario = list type x uuid filters (one or two; "=" and "in"; operands []interface{} and
-// []string) over objects of local / remote A / remote B / unknown prefix / malformed length /
+// A scenario = list type x uuid filters (one to three; "=" and "in"; operands []interface{} and
+// []string, also empty) over objects of local / remote A / remote B / unknown prefix / malformed length /
 // duplicates x set of objects that exist x backend paging (page size 1, 2, all; ascending or
 // descending) x request variant (plain, or one un-splittable option) x fault (none, or backend
 // call n of cluster c answers with an error / with an object nobody asked for / with the page it
@@ -77,6 +77,8 @@ type c20cfg struct {
 	F1Op    string   `json:"f1op"`
 	F2      []string `json:"f2,omitempty"`
 	F2Op    string   `json:"f2op,omitempty"`
+	F3      []string `json:"f3,omitempty"`
+	F3Op    string   `json:"f3op,omitempty"`
 	Exist   []string `json:"exist"`
 	Page    int      `json:"page"` // 0 = everything in one page
 	Desc    bool     `json:"desc"`
@@ -92,6 +94,9 @@ func (c c20cfg) String() string {
 	s := fmt.Sprintf("%s uuid %s %v", c.Type, c.F1Op, c.F1)
 	if c.F2Op != "" {
 		s += fmt.Sprintf(" & uuid %s %v", c.F2Op, c.F2)
+	}
+	if c.F3Op != "" {
+		s += fmt.Sprintf(" & uuid %s %v", c.F3Op, c.F3)
 	}
 	s += fmt.Sprintf(" exist=%v page=%d desc=%v variant=%s", c.Exist, c.Page, c.Desc, c.Variant)
 	if c.Fault != "" {
@@ -372,13 +377,20 @@ func c20expectation(cfg c20cfg) c20expect {
 	if cfg.F1Op == "=" && len(cfg.F1) != 1 {
 		panic("c20: '=' filter needs exactly one operand")
 	}
-	if cfg.F2Op != "" {
-		s2 := map[string]bool{}
-		for _, n := range cfg.F2 {
-			s2[c20uuid(cfg.Type, n)] = true
+	// the request asks for the intersection of ALL its uuid filters
+	for _, f := range []struct {
+		op    string
+		names []string
+	}{{cfg.F2Op, cfg.F2}, {cfg.F3Op, cfg.F3}} {
+		if f.op == "" {
+			continue
+		}
+		sn := map[string]bool{}
+		for _, n := range f.names {
+			sn[c20uuid(cfg.Type, n)] = true
 		}
 		for u := range set {
-			if !s2[u] {
+			if !sn[u] {
 				delete(set, u)
 			}
 		}
@@ -416,6 +428,9 @@ func c20operand(typ string, names []string, op string, asStrings bool) interface
 		}
 		return s
 	}
+	if len(names) == 0 {
+		return []interface{}{} // a really empty operand
+	}
 	var s []interface{}
 	for _, n := range names {
 		s = append(s, c20uuid(typ, n))
@@ -450,6 +465,9 @@ func c20run(r *vrep.Report, cfg c20cfg) vsched.Stats {
 		opts.Filters = append(opts.Filters, arvados.Filter{Attr: "uuid", Operator: cfg.F1Op, Operand: c20operand(cfg.Type, cfg.F1, cfg.F1Op, false)})
 		if cfg.F2Op != "" {
 			opts.Filters = append(opts.Filters, arvados.Filter{Attr: "uuid", Operator: cfg.F2Op, Operand: c20operand(cfg.Type, cfg.F2, cfg.F2Op, true)})
+		}
+		if cfg.F3Op != "" {
+			opts.Filters = append(opts.Filters, arvados.Filter{Attr: "uuid", Operator: cfg.F3Op, Operand: c20operand(cfg.Type, cfg.F3, cfg.F3Op, false)})
 		}
 		if cfg.Select {
 			opts.Select = []string{"name"}
@@ -567,16 +585,18 @@ func c20run(r *vrep.Report, cfg c20cfg) vsched.Stats {
 		switch {
 		case !x.federated:
 			// all-local (or nothing well-formed requested): ordinary single-backend paging
+			// (the statement does not say which backends may be contacted for such a request: a
+			// remote being asked is only recorded; whatever is returned must pass the soundness test)
+			remoteAsked := ""
 			for _, c := range env.calls {
 				if c.cluster != c20home {
-					bad("remote-asked-for-local-query", fmt.Sprintf("cluster %s was asked", c.cluster))
-					return
+					remoteAsked = ":remote-also-asked"
 				}
 			}
 			if res.err != nil {
-				outcome = "local:error"
+				outcome = "local:error" + remoteAsked
 			} else {
-				outcome = fmt.Sprintf("local:ok:calls=%d", len(env.calls))
+				outcome = fmt.Sprintf("local:ok:calls=%d%s", len(env.calls), remoteAsked)
 			}
 		case cfg.Variant != "plain":
 			if res.err == nil && len(x.involved) >= 2 {
@@ -779,6 +799,39 @@ func TestVerifC20(t *testing.T) {
 	for _, n := range []string{"L1", "A1", "B2", "Z1", "M"} {
 		for _, exist := range [][]string{{n}, nil} {
 			run("eq-filter", c20cfg{Type: nextType(), F1: []string{n}, F1Op: "=", Exist: c20real(exist), Page: 1, Variant: "plain", Bound: bound})
+		}
+	}
+	// G2b: three uuid filters / an empty operand / a running intersection that is already empty
+	// when a later filter names (remote) objects: the request asks for the intersection of all
+	type c20f struct {
+		op    string
+		names []string
+	}
+	for _, fs := range [][]c20f{
+		{{"in", []string{"A1", "B1"}}, {"in", []string{"L1"}}, {"in", []string{"B1", "B2"}}},
+		{{"in", nil}, {"=", []string{"B1"}}},
+		{{"in", nil}, {"in", []string{"A1", "L1"}}},
+		{{"in", []string{"A1"}}, {"in", nil}, {"=", []string{"B1"}}},
+		{{"=", []string{"A1"}}, {"=", []string{"B1"}}, {"=", []string{"B1"}}},
+		{{"in", []string{"Z1"}}, {"in", []string{"A1"}}, {"in", []string{"A1", "L1"}}},
+		{{"in", []string{"M"}}, {"in", []string{"L1"}}, {"in", []string{"L1", "B1"}}},
+		{{"in", []string{"L1", "A1", "B1"}}, {"=", []string{"A1"}}, {"=", []string{"B1"}}},
+		{{"in", []string{"A1", "B1"}}, {"in", []string{"A1", "L1"}}, {"in", []string{"A1", "A2", "B1"}}},
+		{{"in", []string{"L1", "A1", "A2", "B1"}}, {"in", []string{"A1", "A2", "B1", "B2"}}, {"in", []string{"A2", "B1", "L2", "Z1"}}},
+	} {
+		var named []string
+		for _, f := range fs {
+			named = append(named, f.names...)
+		}
+		all := c20real(named)
+		for _, exist := range [][]string{all, all[1:]} {
+			for _, pg := range []c20paging{{1, false}, {0, true}} {
+				cfg := c20cfg{Type: nextType(), F1: fs[0].names, F1Op: fs[0].op, F2: fs[1].names, F2Op: fs[1].op, Exist: exist, Page: pg.page, Desc: pg.desc, Variant: "plain", Bound: bound}
+				if len(fs) > 2 {
+					cfg.F3, cfg.F3Op = fs[2].names, fs[2].op
+				}
+				run("three-filters", cfg)
+			}
 		}
 	}
 	// G3: a fault at backend call n of cluster c
